@@ -31,6 +31,7 @@ type errSummary struct {
 
 // errAnalysis is analysis A of E2: the abstract contents of the err cell at every program point of package vm.
 type errAnalysis struct {
+	va      *evalAnalysis
 	m       *vmModel
 	sum     map[*ssa.Function]errSummary
 	entry   map[*ssa.Function]errBits
@@ -221,6 +222,9 @@ func (f *errFlow) Instr(in ssa.Instruction, s *errState) *errState {
 	case *ssa.Call:
 		if callee := f.a.m.calleeOnBase(x, f.base); callee != nil {
 			sm := f.a.sum[callee]
+			if ks, ok := f.a.eventSummary(f.fn, x, f.base); ok {
+				sm = ks
+			}
 			if sm.hasBool {
 				s.pre[x] = s.cell
 			}
@@ -351,7 +355,7 @@ func (a *errAnalysis) hasRecoverDefer(fn *ssa.Function) bool {
 }
 
 func buildErrAnalysis(m *vmModel) *errAnalysis {
-	a := &errAnalysis{m: m, sum: map[*ssa.Function]errSummary{}, entry: map[*ssa.Function]errBits{},
+	a := &errAnalysis{m: m, va: buildEvalAnalysis(m), sum: map[*ssa.Function]errSummary{}, entry: map[*ssa.Function]errBits{},
 		before: map[*ssa.Function]map[ssa.Instruction]*errState{}, sentBit: map[*ssa.Global]errBits{}}
 	for i, g := range m.sentinels {
 		a.sentBit[g] = eSent0 << uint(i)
@@ -520,4 +524,57 @@ func constBoolResult(ret *ssa.Return) int {
 		return 0
 	}
 	return -1
+}
+
+// eventSummary refines the effect of an evaluator call by the node kinds its operand can be (taken from the
+// parser-derived node model): the join of the summaries of the handlers of those kinds. Falls back (ok=false)
+// when the operand is not a child field of the handler's node or a kind is handled inline.
+func (a *errAnalysis) eventSummary(fn *ssa.Function, c *ssa.Call, base ssa.Value) (errSummary, bool) {
+	role := a.m.evalRole(c, base)
+	if role == "" || a.va == nil {
+		return errSummary{}, false
+	}
+	var ev *evalEvent
+	for _, e := range a.va.events[fn] {
+		if e.call == c {
+			ev = e
+		}
+	}
+	kind := a.m.nodeKindOfFunc(fn)
+	if ev == nil || kind == "" {
+		return errSummary{}, false
+	}
+	var out errSummary
+	n := 0
+	for _, o := range ev.operands {
+		f, _, direct := fieldOfPath(o)
+		if f == "" || !direct {
+			return errSummary{}, false
+		}
+		kinds := a.m.nm.Kinds("field:" + kind + "." + f)
+		if len(kinds) == 0 {
+			return errSummary{}, false
+		}
+		for _, k := range kinds {
+			h := a.m.handlers[role][k]
+			if h == nil {
+				return errSummary{}, false
+			}
+			sm, ok := a.sum[h]
+			if !ok {
+				return errSummary{}, false
+			}
+			out.gen |= sm.gen
+			out.preserve = out.preserve || sm.preserve
+			n++
+		}
+	}
+	if n == 0 {
+		return errSummary{}, false
+	}
+	if role == "stmt" {
+		// the statement dispatcher polls the context first
+		out.gen |= a.sentinel("ErrInterrupt")
+	}
+	return out, true
 }
